@@ -36,3 +36,7 @@ PENDING.pop("C04", None); PENDING.pop("C05", None)
 _p("C09", "other",
    "Static necessary conditions of 'subcircuit blocks mean prepare_all ... measure_all': the replacement list has the prepare call first and the measure call last around the visited body; the expander constructs no block with subcircuit set and visits every statement container (circuit body, macro bodies); per-field information-flow necessity for block kind, loop fields and all header fields; every entry point that feeds DiscoverSubcircuits applies the same set of normalising passes (call-graph set comparison); control-flow order of the bounding-gate choice. Decides those clauses for all programs; does not decide that execution results are identical.")
 PENDING.pop("C09", None)
+
+_p("C19", "other",
+   "Static necessary conditions of 'unit-timing normalisation preserves the lock-step schedule': per-field information-flow necessity for header fields and subcircuit annotation/count through BlockNormalizer (and that the unrolling helper reads the annotation before dissolving a block); in every generator loop of the pass each iterated element is appended/extended/yielded or rejected on every path (CFG path query, None-padding filter recognised); a LoopStatement met while chunking raises JaqalError. Decides those clauses for all programs; does not decide equality of time steps.")
+PENDING.pop("C19", None)
